@@ -34,6 +34,7 @@ fn main() {
         "C08" => props::malformed::c08(),
         "C09" => props::desync::c09(),
         "C10" => props::cutoff::c10(),
+        "C11" => props::delay::c11(),
         "C12" => props::lifecycle_check::c12(),
         "C13" => props::synctest::c13(),
         "C14" => props::codec::c14(),
